@@ -121,12 +121,12 @@ impl Prop for C07 {
     fn rule(&self) -> String {
         "Raw libraries from gen/rawgen.rs: 1-6 layout cells forming a DAG in straight/reversed/shuffled listing order, instances with both reflections and angles None/0/90/180/270/-90, rectangles (any opposite-corner pair), polyomino-outline rectilinear polygons (L/U/comb shapes), 45-degree chamfered polygons, star-shaped general polygons, Manhattan paths, \
          each in its own 1000-unit slot (no overlaps), nets on half the shapes (mixed case), 1-4 layers x 6 purposes with arbitrary layer/purpose numbers, all four Units. Oracle: to_gds must be Ok; in the exported GdsLibrary every label point lies inside its shape (exact containment) and every path keeps exactly its points; \
-         from_gds(to_gds(lib), same Layers) must be Ok with equal units, cell names, and per cell equal multisets of instances (target, loc, reflect, angle bits) and elements (layer number, purpose number, canonical shape, lower-cased net). distinct_nontrivial = distinct libraries (hash of summary) with at least one net, instance or path."
+         from_gds(to_gds(lib), same Layers) must be Ok with equal units, cell names, and per cell equal multisets of instances (target, loc, reflect, angle bits) and elements (layer number, purpose number, canonical shape, lower-cased net, and the stored form: a rectangle's two corners as given, polygon vertices in their own order); every imported instance target is a member of lib.cells by identity; every fifth library gives layout views names of their own (the cell's name must survive); every fourth library is moved in place and converted a second time; big libraries also go through save -> load. distinct_nontrivial = distinct libraries (hash of summary) with at least one net, instance or path."
             .into()
     }
     fn assumptions(&self) -> Vec<String> {
         vec!["shapes never overlap or touch within a cell (differently named overlapping shapes are a short in GDSII label semantics)".into(),
-             "rectangles and 4-vertex axis-aligned polygons are identified (canonical vertex cycle)".into(),
+             "a 4-vertex axis-parallel polygon returns as the rectangle spanned by its first and third vertices (GDSII has no rectangle); everything else returns vertex for vertex".into(),
              "layout-only cells, no annotations (GDSII export does not carry them and the statement does not list them)".into()]
     }
     fn plan(&self, tier: Tier) -> Vec<GenSpec> {
